@@ -83,12 +83,14 @@ theorem filter_noPrefix (l : RuleCat) (p : Name)
       simp only [List.filter_cons, hp]
       simp [ih h]
 
-/-- the FS effect of one catalog operation is nothing, one rule-catalog save, or one schema-catalog save,
-    and memory changes accordingly (for the non-excluded inputs). -/
-theorem step_cases (m : Mem) (o : COp) (hs : safe m o = true) :
+/-- the FS effect of one catalog operation is nothing, one rule-catalog save, one schema-catalog save, or (for
+    `drop_relation` on a name that is both) a schema-catalog save followed by a rule-catalog save; memory changes
+    accordingly. -/
+theorem step_cases (m : Mem) (o : COp) :
     ((step m o).2.2 = [] ∧ (step m o).2.1 = m) ∨
     (∃ r, (step m o).2.2 = saveRules r ∧ (step m o).2.1 = { m with rules := r }) ∨
-    (∃ s, (step m o).2.2 = saveSchemas s ∧ (step m o).2.1 = { m with schemas := s }) := by
+    (∃ s, (step m o).2.2 = saveSchemas s ∧ (step m o).2.1 = { m with schemas := s }) ∨
+    (∃ r s, (step m o).2.2 = saveSchemas s ++ saveRules r ∧ (step m o).2.1 = { rules := r, schemas := s }) := by
   cases o with
   | reg n c =>
     simp only [step]
@@ -142,175 +144,312 @@ theorem step_cases (m : Mem) (o : COp) (hs : safe m o = true) :
     · exact .inl ⟨rfl, rfl⟩
     · split
       · exact .inl ⟨rfl, rfl⟩
-      · exact .inr (.inr ⟨_, rfl, rfl⟩)
+      · exact .inr (.inr (.inl ⟨_, rfl, rfl⟩))
   | supd r s =>
     simp only [step]
     split
     · exact .inl ⟨rfl, rfl⟩
-    · exact .inr (.inr ⟨_, rfl, rfl⟩)
+    · exact .inr (.inr (.inl ⟨_, rfl, rfl⟩))
   | srem r =>
     simp only [step]
     split
     · exact .inl ⟨rfl, rfl⟩
-    · exact .inr (.inr ⟨_, rfl, rfl⟩)
+    · exact .inr (.inr (.inl ⟨_, rfl, rfl⟩))
   | dropRel n =>
-    simp only [safe, Option.isNone_iff_eq_none] at hs
     simp only [step]
     split
     · exact .inl ⟨rfl, rfl⟩
-    · split
-      · refine .inl ⟨rfl, ?_⟩
-        simp [aDel_of_none _ _ hs]
-      · refine .inr (.inl ⟨_, rfl, ?_⟩)
-        simp [aDel_of_none _ _ hs]
+    · exact .inr (.inr (.inl ⟨_, rfl, rfl⟩))
+    · exact .inr (.inl ⟨_, rfl, rfl⟩)
+    · exact .inr (.inr (.inr ⟨_, _, rfl, rfl⟩))
 
-/-- what a reopen would load (if nothing is torn) is what is in memory. -/
-structure Consistent (st : St) : Prop where
-  rules_eq : loadRules (crash st.disk noCut) = some st.mem.rules
-  schemas_eq : loadSchemas (crash st.disk noCut) = st.mem.schemas
+/-! ### the invariant: the catalog files are complete, fully synced documents holding what is in memory -/
 
-theorem Consistent.recover_eq {st : St} (h : Consistent st) : recover (crash st.disk noCut) = some st.mem := by
-  simp [recover, h.rules_eq, h.schemas_eq]
+def docFile (doc : Doc) : File Doc := { synced := [.whole doc], unsynced := [] }
 
-theorem consistent_init : Consistent {} := ⟨rfl, rfl⟩
+def RulesOk (d : Disk) (r : RuleCat) : Prop :=
+  (get d .ruleCat = none ∧ r = []) ∨ get d .ruleCat = some (docFile (.rules r))
 
-theorem consistent_of_recover {m : Mem} {d : Disk} (h : recover (crash d noCut) = some m) :
-    Consistent { mem := m, disk := d } := by
-  unfold recover at h
-  split at h
-  · cases h
-  · rename_i r hr
-    cases h
-    exact ⟨hr, rfl⟩
+def SchemasOk (d : Disk) (s : SchemaCat) : Prop :=
+  (get d .schemaCat = none ∧ s = []) ∨ get d .schemaCat = some (docFile (.schemas s))
 
-def wroteFile (doc : Doc) : File Doc := { synced := [], unsynced := [.whole doc] }
+structure Solid (st : St) : Prop where
+  rules : RulesOk st.disk st.mem.rules
+  schemas : SchemasOk st.disk st.mem.schemas
 
-theorem applyAll_save (d : Disk) (l : Nat) (p : Path) (doc : Doc) :
-    applyAll d [.nop l, .write p [doc]] = put d p (wroteFile doc) := rfl
+theorem solid_init : Solid {} := ⟨.inl ⟨rfl, rfl⟩, .inl ⟨rfl, rfl⟩⟩
 
-theorem get_crash_put (d : Disk) (p q : Path) (doc : Doc) :
-    get (crash (put d p (wroteFile doc)) noCut) q =
-      if p = q then some { synced := [.whole doc], unsynced := [] } else get (crash d noCut) q := by
-  rw [get_crash, get_put]
-  by_cases h : p = q
-  · simp [h, crashFile, wroteFile, noCut]
-  · simp [h, get_crash]
+theorem crashFile_docFile (doc : Doc) (c : Option Cut) : crashFile (docFile doc) c = docFile doc := by
+  cases c with
+  | none => simp [crashFile, docFile]
+  | some c =>
+    obtain ⟨k, fr⟩ := c
+    cases fr <;> simp [crashFile, docFile, cutItems]
 
-theorem loadRules_saved (d : Disk) (r : RuleCat) :
-    loadRules (crash (put d .ruleCat (wroteFile (.rules r))) noCut) = some r := by
-  simp [loadRules, get_crash_put, parseDoc, File.items]
+/-- a synced catalog file is immune to every crash: whatever is cut, the loader reads memory's catalog. -/
+theorem loadRules_crash {d : Disk} {r : RuleCat} (h : RulesOk d r) (cuts : Path → Option Cut) :
+    loadRules (crash d cuts) = some r := by
+  rcases h with ⟨h, hr⟩ | h
+  · simp [loadRules, get_crash, h, hr]
+  · simp only [loadRules, get_crash, h, Option.map_some, crashFile_docFile]
+    simp [parseDoc, docFile, File.items]
 
-theorem loadSchemas_saved (d : Disk) (s : SchemaCat) :
-    loadSchemas (crash (put d .schemaCat (wroteFile (.schemas s))) noCut) = s := by
-  simp [loadSchemas, get_crash_put, parseDoc, File.items]
+theorem loadSchemas_crash {d : Disk} {s : SchemaCat} (h : SchemasOk d s) (cuts : Path → Option Cut) :
+    loadSchemas (crash d cuts) = s := by
+  rcases h with ⟨h, hs⟩ | h
+  · simp [loadSchemas, get_crash, h, hs]
+  · simp only [loadSchemas, get_crash, h, Option.map_some, crashFile_docFile]
+    simp [parseDoc, docFile, File.items]
 
-theorem loadSchemas_other (d : Disk) (doc : Doc) :
-    loadSchemas (crash (put d .ruleCat (wroteFile doc)) noCut) = loadSchemas (crash d noCut) := by
-  simp [loadSchemas, get_crash_put]
+theorem rulesOk_crash {d : Disk} {r : RuleCat} (h : RulesOk d r) (cuts : Path → Option Cut) :
+    RulesOk (crash d cuts) r := by
+  rcases h with ⟨h, hr⟩ | h
+  · exact .inl ⟨by simp [get_crash, h], hr⟩
+  · exact .inr (by simp [get_crash, h, crashFile_docFile])
 
-theorem loadRules_other (d : Disk) (doc : Doc) :
-    loadRules (crash (put d .schemaCat (wroteFile doc)) noCut) = loadRules (crash d noCut) := by
-  simp [loadRules, get_crash_put]
+theorem schemasOk_crash {d : Disk} {s : SchemaCat} (h : SchemasOk d s) (cuts : Path → Option Cut) :
+    SchemasOk (crash d cuts) s := by
+  rcases h with ⟨h, hs⟩ | h
+  · exact .inl ⟨by simp [get_crash, h], hs⟩
+  · exact .inr (by simp [get_crash, h, crashFile_docFile])
 
-theorem consistent_saveRules {m : Mem} {d : Disk} (h : Consistent { mem := m, disk := d }) (r : RuleCat) :
-    Consistent { mem := { m with rules := r }, disk := applyAll d (saveRules r) } := by
-  refine ⟨?_, ?_⟩
-  · simp only [saveRules, applyAll_save]; exact loadRules_saved d r
-  · simp only [saveRules, applyAll_save, loadSchemas_other]; exact h.schemas_eq
+theorem recover_of_ok {d : Disk} {r : RuleCat} {s : SchemaCat} (hr : RulesOk d r) (hs : SchemasOk d s)
+    (cuts : Path → Option Cut) : recover (crash d cuts) = some { rules := r, schemas := s } := by
+  simp [recover, loadRules_crash hr cuts, loadSchemas_crash hs cuts]
 
-theorem consistent_saveSchemas {m : Mem} {d : Disk} (h : Consistent { mem := m, disk := d }) (s : SchemaCat) :
-    Consistent { mem := { m with schemas := s }, disk := applyAll d (saveSchemas s) } := by
-  refine ⟨?_, ?_⟩
-  · simp only [saveSchemas, applyAll_save, loadRules_other]; exact h.rules_eq
-  · simp only [saveSchemas, applyAll_save]; exact loadSchemas_saved d s
+/-! ### a save, step by step -/
 
-theorem consistent_crash {st : St} (h : Consistent st) : Consistent { mem := st.mem, disk := crash st.disk noCut } :=
-  ⟨by simp only [crash_idem]; exact h.rules_eq, by simp only [crash_idem]; exact h.schemas_eq⟩
+theorem take_five {α} (a b c d e : α) (j : Nat) :
+    [a, b, c, d, e].take j = [] ∨ [a, b, c, d, e].take j = [a] ∨ [a, b, c, d, e].take j = [a, b] ∨
+    [a, b, c, d, e].take j = [a, b, c] ∨ [a, b, c, d, e].take j = [a, b, c, d] ∨
+    [a, b, c, d, e].take j = [a, b, c, d, e] := by
+  match j with
+  | 0 => simp
+  | 1 => simp
+  | 2 => simp
+  | 3 => simp
+  | 4 => simp
+  | n + 5 => simp
 
-/-- tearing the rule-catalog rewrite -/
-theorem recover_torn_rules (d : Disk) (c : RuleCat) (fr : Frag) :
-    recover (crash (apply d (.write .ruleCat [.rules c])) (cutAt .ruleCat ⟨0, fr⟩)) = none := by
-  have : loadRules (crash (apply d (.write .ruleCat [.rules c])) (cutAt .ruleCat ⟨0, fr⟩)) = none := by
-    simp only [loadRules, apply, get_crash, get_put]
-    cases fr <;> simp [crashFile, cutAt, cutItems, parseDoc, File.items]
-  simp [recover, this]
+theorem get_rename (d : Disk) (a b q : Path) (f : File Doc) (h : get d a = some f) :
+    get (apply d (.rename a b)) q = if b = q then some f else if q = a then none else get d q := by
+  simp [apply, h, get_put, get_del]
 
-theorem loadSchemas_torn (d : Disk) (sc : SchemaCat) (fr : Frag) :
-    loadSchemas (crash (apply d (.write .schemaCat [.schemas sc])) (cutAt .schemaCat ⟨0, fr⟩)) = [] := by
-  simp only [loadSchemas, apply, get_crash, get_put]
-  cases fr <;> simp [crashFile, cutAt, cutItems, parseDoc, File.items]
+/-- after any prefix of `saveRules r'`, the rule catalog file is old or new (new once the rename happened), and
+    the schema catalog file is untouched. -/
+theorem saveRules_prefix (d : Disk) (r r' : RuleCat) (s : SchemaCat) (hr : RulesOk d r) (hs : SchemasOk d s)
+    (j : Nat) :
+    (RulesOk (applyAll d ((saveRules r').take j)) r ∨ RulesOk (applyAll d ((saveRules r').take j)) r') ∧
+    SchemasOk (applyAll d ((saveRules r').take j)) s ∧
+    (5 ≤ j → RulesOk (applyAll d ((saveRules r').take j)) r') := by
+  have hw : get (apply d (.write .ruleTmp [.rules r'])) .ruleTmp = some { synced := [], unsynced := [.whole (.rules r')] } := by
+    simp [apply, get_put]
+  have hf : get (apply (apply d (.write .ruleTmp [.rules r'])) (.fsync .ruleTmp)) .ruleTmp = some (docFile (.rules r')) := by
+    simp [apply, get_put, docFile, File.items]
+  have keepR : ∀ x : Disk, (∀ q, q ≠ Path.ruleTmp → get x q = get d q) → RulesOk x r := by
+    intro x hx
+    rcases hr with ⟨h, e⟩ | h
+    · exact .inl ⟨by rw [hx _ (by decide)]; exact h, e⟩
+    · exact .inr (by rw [hx _ (by decide)]; exact h)
+  have keepS : ∀ x : Disk, (get x .schemaCat = get d .schemaCat) → SchemasOk x s := by
+    intro x hx
+    rcases hs with ⟨h, e⟩ | h
+    · exact .inl ⟨by rw [hx]; exact h, e⟩
+    · exact .inr (by rw [hx]; exact h)
+  have e1 : ∀ q, q ≠ Path.ruleTmp → get (apply d (.write .ruleTmp [.rules r'])) q = get d q := by
+    intro q hq
+    have : ¬ Path.ruleTmp = q := fun e => hq e.symm
+    simp [apply, get_put, this]
+  have e2 : ∀ q, q ≠ Path.ruleTmp →
+      get (apply (apply d (.write .ruleTmp [.rules r'])) (.fsync .ruleTmp)) q = get d q := by
+    intro q hq
+    have : ¬ Path.ruleTmp = q := fun e => hq e.symm
+    simp [apply, get_put, this]
+  have e3 : ∀ q, get (apply (apply (apply d (.write .ruleTmp [.rules r'])) (.fsync .ruleTmp)) (.rename .ruleTmp .ruleCat)) q =
+      if Path.ruleCat = q then some (docFile (.rules r')) else if q = Path.ruleTmp then none else get d q := by
+    intro q
+    rw [get_rename _ _ _ _ _ hf]
+    by_cases h1 : Path.ruleCat = q
+    · simp [h1]
+    · by_cases h2 : q = Path.ruleTmp
+      · simp [h1, h2]
+      · simp [h1, h2, e2 q h2]
+  rcases take_five (Op.nop lblRuleMkdir) (Op.write Path.ruleTmp [Doc.rules r']) (Op.fsync Path.ruleTmp)
+      (Op.rename Path.ruleTmp Path.ruleCat) (Op.nop lblRuleDirsync) j with h | h | h | h | h | h
+  all_goals (have hlen := congrArg List.length h; simp only [saveRules] at *; rw [h]; simp only [List.length_take, List.length_cons, List.length_nil] at hlen)
+  · refine ⟨.inl (by simpa [applyAll] using hr), by simpa [applyAll] using hs, fun h5 => by omega⟩
+  · refine ⟨.inl (by simpa [applyAll, apply] using hr), by simpa [applyAll, apply] using hs, fun h5 => by omega⟩
+  · refine ⟨.inl (keepR _ (by simpa [applyAll, apply] using e1)), keepS _ (by simpa [applyAll, apply] using e1 .schemaCat (by decide)), fun h5 => by omega⟩
+  · refine ⟨.inl (keepR _ (by simpa [applyAll, apply] using e2)), keepS _ (by simpa [applyAll, apply] using e2 .schemaCat (by decide)), fun h5 => by omega⟩
+  · refine ⟨.inr (.inr ?_), keepS _ ?_, fun h5 => by omega⟩
+    · have := e3 .ruleCat
+      simpa [applyAll, apply] using this
+    · have := e3 .schemaCat
+      simpa [applyAll, apply] using this
+  · refine ⟨.inr (.inr ?_), keepS _ ?_, fun _ => .inr ?_⟩
+    · have := e3 .ruleCat
+      simpa [applyAll, apply] using this
+    · have := e3 .schemaCat
+      simpa [applyAll, apply] using this
+    · have := e3 .ruleCat
+      simpa [applyAll, apply] using this
 
-/-- history items that never tear a write -/
-inductive noTearItem : HItem → Prop
-  | op (o) : noTearItem (.op o)
-  | restart : noTearItem .restart
-  | opCrash (o j) : noTearItem (.opCrash o j none)
+/-- the same for `saveSchemas r'` (here `r r'` are schema catalogs and `s` is the untouched rule catalog). -/
+theorem saveSchemas_prefix (d : Disk) (s : RuleCat) (r r' : SchemaCat) (hr : SchemasOk d r) (hs : RulesOk d s)
+    (j : Nat) :
+    (SchemasOk (applyAll d ((saveSchemas r').take j)) r ∨ SchemasOk (applyAll d ((saveSchemas r').take j)) r') ∧
+    RulesOk (applyAll d ((saveSchemas r').take j)) s ∧
+    (5 ≤ j → SchemasOk (applyAll d ((saveSchemas r').take j)) r') := by
+  have hw : get (apply d (.write .schemaTmp [.schemas r'])) .schemaTmp = some { synced := [], unsynced := [.whole (.schemas r')] } := by
+    simp [apply, get_put]
+  have hf : get (apply (apply d (.write .schemaTmp [.schemas r'])) (.fsync .schemaTmp)) .schemaTmp = some (docFile (.schemas r')) := by
+    simp [apply, get_put, docFile, File.items]
+  have keepS : ∀ x : Disk, (∀ q, q ≠ Path.schemaTmp → get x q = get d q) → SchemasOk x r := by
+    intro x hx
+    rcases hr with ⟨h, e⟩ | h
+    · exact .inl ⟨by rw [hx _ (by decide)]; exact h, e⟩
+    · exact .inr (by rw [hx _ (by decide)]; exact h)
+  have keepR : ∀ x : Disk, (get x .ruleCat = get d .ruleCat) → RulesOk x s := by
+    intro x hx
+    rcases hs with ⟨h, e⟩ | h
+    · exact .inl ⟨by rw [hx]; exact h, e⟩
+    · exact .inr (by rw [hx]; exact h)
+  have e1 : ∀ q, q ≠ Path.schemaTmp → get (apply d (.write .schemaTmp [.schemas r'])) q = get d q := by
+    intro q hq
+    have : ¬ Path.schemaTmp = q := fun e => hq e.symm
+    simp [apply, get_put, this]
+  have e2 : ∀ q, q ≠ Path.schemaTmp →
+      get (apply (apply d (.write .schemaTmp [.schemas r'])) (.fsync .schemaTmp)) q = get d q := by
+    intro q hq
+    have : ¬ Path.schemaTmp = q := fun e => hq e.symm
+    simp [apply, get_put, this]
+  have e3 : ∀ q, get (apply (apply (apply d (.write .schemaTmp [.schemas r'])) (.fsync .schemaTmp)) (.rename .schemaTmp .schemaCat)) q =
+      if Path.schemaCat = q then some (docFile (.schemas r')) else if q = Path.schemaTmp then none else get d q := by
+    intro q
+    rw [get_rename _ _ _ _ _ hf]
+    by_cases h1 : Path.schemaCat = q
+    · simp [h1]
+    · by_cases h2 : q = Path.schemaTmp
+      · simp [h1, h2]
+      · simp [h1, h2, e2 q h2]
+  rcases take_five (Op.nop lblSchemaMkdir) (Op.write Path.schemaTmp [Doc.schemas r']) (Op.fsync Path.schemaTmp)
+      (Op.rename Path.schemaTmp Path.schemaCat) (Op.nop lblSchemaDirsync) j with h | h | h | h | h | h
+  all_goals (have hlen := congrArg List.length h; simp only [saveSchemas] at *; rw [h]; simp only [List.length_take, List.length_cons, List.length_nil] at hlen)
+  · refine ⟨.inl (by simpa [applyAll] using hr), by simpa [applyAll] using hs, fun h5 => by omega⟩
+  · refine ⟨.inl (by simpa [applyAll, apply] using hr), by simpa [applyAll, apply] using hs, fun h5 => by omega⟩
+  · refine ⟨.inl (keepS _ (by simpa [applyAll, apply] using e1)), keepR _ (by simpa [applyAll, apply] using e1 .ruleCat (by decide)), fun h5 => by omega⟩
+  · refine ⟨.inl (keepS _ (by simpa [applyAll, apply] using e2)), keepR _ (by simpa [applyAll, apply] using e2 .ruleCat (by decide)), fun h5 => by omega⟩
+  · refine ⟨.inr (.inr ?_), keepR _ ?_, fun h5 => by omega⟩
+    · have := e3 .schemaCat
+      simpa [applyAll, apply] using this
+    · have := e3 .ruleCat
+      simpa [applyAll, apply] using this
+  · refine ⟨.inr (.inr ?_), keepR _ ?_, fun _ => .inr ?_⟩
+    · have := e3 .schemaCat
+      simpa [applyAll, apply] using this
+    · have := e3 .ruleCat
+      simpa [applyAll, apply] using this
+    · have := e3 .schemaCat
+      simpa [applyAll, apply] using this
 
+
+theorem applyAll_append (d : Disk) (a b : List (Op Path Doc)) : applyAll d (a ++ b) = applyAll (applyAll d a) b := by
+  simp [applyAll, List.foldl_append]
+
+/-- the disk after the first `j` FS steps of any operation: each catalog file is a complete synced document holding
+    the old or the new catalog. -/
+theorem crashpoint_ok (m : Mem) (d : Disk) (o : COp) (j : Nat) (hS : Solid { mem := m, disk := d }) :
+    ∃ r s, (r = m.rules ∨ r = (step m o).2.1.rules) ∧ (s = m.schemas ∨ s = (step m o).2.1.schemas) ∧
+      RulesOk (applyAll d ((step m o).2.2.take j)) r ∧ SchemasOk (applyAll d ((step m o).2.2.take j)) s := by
+  obtain ⟨hr, hs⟩ := hS
+  simp only at hr hs
+  rcases step_cases m o with ⟨h1, h2⟩ | ⟨r', h1, h2⟩ | ⟨s', h1, h2⟩ | ⟨r', s', h1, h2⟩
+  · exact ⟨m.rules, m.schemas, .inl rfl, .inl rfl, by simpa [h1, applyAll] using hr, by simpa [h1, applyAll] using hs⟩
+  · obtain ⟨ha, hb, _⟩ := saveRules_prefix d m.rules r' m.schemas hr hs j
+    rw [h1, h2]
+    rcases ha with ha | ha
+    · exact ⟨m.rules, m.schemas, .inl rfl, .inl rfl, ha, hb⟩
+    · exact ⟨r', m.schemas, .inr rfl, .inl rfl, ha, hb⟩
+  · obtain ⟨ha, hb, _⟩ := saveSchemas_prefix d m.rules m.schemas s' hs hr j
+    rw [h1, h2]
+    rcases ha with ha | ha
+    · exact ⟨m.rules, m.schemas, .inl rfl, .inl rfl, hb, ha⟩
+    · exact ⟨m.rules, s', .inl rfl, .inr rfl, hb, ha⟩
+  · obtain ⟨ha, hb, hc⟩ := saveSchemas_prefix d m.rules m.schemas s' hs hr j
+    rw [h1, h2]
+    have hlen : (saveSchemas s').length = 5 := rfl
+    rw [List.take_append, hlen, applyAll_append]
+    rcases ha with ha | ha
+    · obtain ⟨hx, hy, _⟩ := saveRules_prefix _ m.rules r' m.schemas hb ha (j - 5)
+      rcases hx with hx | hx
+      · exact ⟨m.rules, m.schemas, .inl rfl, .inl rfl, hx, hy⟩
+      · exact ⟨r', m.schemas, .inr rfl, .inl rfl, hx, hy⟩
+    · obtain ⟨hx, hy, _⟩ := saveRules_prefix _ m.rules r' s' hb ha (j - 5)
+      rcases hx with hx | hx
+      · exact ⟨m.rules, s', .inl rfl, .inr rfl, hx, hy⟩
+      · exact ⟨r', s', .inr rfl, .inr rfl, hx, hy⟩
+
+/-- after the whole operation both files hold the new catalogs. -/
+theorem complete_ok (m : Mem) (d : Disk) (o : COp) (hS : Solid { mem := m, disk := d }) :
+    Solid { mem := (step m o).2.1, disk := applyAll d (step m o).2.2 } := by
+  obtain ⟨hr, hs⟩ := hS
+  simp only at hr hs
+  rcases step_cases m o with ⟨h1, h2⟩ | ⟨r', h1, h2⟩ | ⟨s', h1, h2⟩ | ⟨r', s', h1, h2⟩
+  · rw [h1, h2]; exact ⟨by simpa [applyAll] using hr, by simpa [applyAll] using hs⟩
+  · obtain ⟨_, hb, hc⟩ := saveRules_prefix d m.rules r' m.schemas hr hs 5
+    rw [h1, h2]
+    exact ⟨by simpa [saveRules] using hc (Nat.le_refl 5), by simpa [saveRules] using hb⟩
+  · obtain ⟨_, hb, hc⟩ := saveSchemas_prefix d m.rules m.schemas s' hs hr 5
+    rw [h1, h2]
+    exact ⟨by simpa [saveSchemas] using hb, by simpa [saveSchemas] using hc (Nat.le_refl 5)⟩
+  · obtain ⟨_, hb, hc⟩ := saveSchemas_prefix d m.rules m.schemas s' hs hr 5
+    have hb' : RulesOk (applyAll d (saveSchemas s')) m.rules := by simpa [saveSchemas] using hb
+    have hc' : SchemasOk (applyAll d (saveSchemas s')) s' := by simpa [saveSchemas] using hc (Nat.le_refl 5)
+    obtain ⟨_, hy, hz⟩ := saveRules_prefix _ m.rules r' s' hb' hc' 5
+    rw [h1, h2, applyAll_append]
+    exact ⟨by simpa [saveRules] using hz (Nat.le_refl 5), by simpa [saveRules] using hy⟩
+
+/-- a reopen is acceptable iff the engine opens and each catalog is the one of before or after the operation in
+    flight. -/
 def outOk : Out → Prop
-  | .reboot old new got => got = some old ∨ got = some new
+  | .reboot old new got => ∃ m, got = some m ∧ (m.rules = old.rules ∨ m.rules = new.rules) ∧
+      (m.schemas = old.schemas ∨ m.schemas = new.schemas)
   | .ack _ _ => True
 
-theorem take_two {α} (a b : α) (j : Nat) : [a, b].take j = [] ∨ [a, b].take j = [a] ∨ [a, b].take j = [a, b] := by
-  match j with
-  | 0 => exact .inl rfl
-  | 1 => exact .inr (.inl rfl)
-  | n + 2 => exact .inr (.inr (by simp))
-
-/-- one history item from a consistent state: a reopen yields old or new, and the next state is consistent. -/
-theorem runItem_consistent (st : St) (it : HItem) (hc : Consistent st) (hit : noTearItem it)
-    (hs : safeItem st.mem it = true) :
-    outOk (runItem st it).1 ∧ ∀ st', (runItem st it).2 = some st' → Consistent st' := by
+/-- one history item from a solid state: the reopen (if any) is acceptable and the next state is solid. -/
+theorem runItem_solid (st : St) (it : HItem) (hS : Solid st) :
+    outOk (runItem st it).1 ∧ ∀ st', (runItem st it).2 = some st' → Solid st' := by
   obtain ⟨m, d⟩ := st
-  cases hit with
+  cases it with
   | op o =>
     refine ⟨trivial, ?_⟩
     intro st' hst
     simp only [runItem, Option.some.injEq] at hst
     subst hst
-    rcases step_cases m o hs with ⟨h1, h2⟩ | ⟨r, h1, h2⟩ | ⟨s, h1, h2⟩
-    · simp only [h1, h2, applyAll, List.foldl_nil]; exact hc
-    · simp only [h1, h2]; exact consistent_saveRules hc r
-    · simp only [h1, h2]; exact consistent_saveSchemas hc s
-  | restart =>
-    have hr : recover (crash d noCut) = some m := hc.recover_eq
+    exact complete_ok m d o hS
+  | restart cuts =>
+    have hr := recover_of_ok hS.rules hS.schemas (cutsOf cuts)
+    simp only at hr
     refine ⟨?_, ?_⟩
-    · simp [runItem, rebootFrom, hr, outOk]
+    · simp only [runItem, rebootFrom, hr, outOk]
+      exact ⟨_, rfl, .inl rfl, .inl rfl⟩
     · intro st' hst
       simp only [runItem, rebootFrom, hr, Option.map_some, Option.some.injEq] at hst
       subst hst
-      exact consistent_crash hc
-  | opCrash o j =>
-    -- the disk at the crash point is consistent with old or with new memory
-    have hcase : Consistent { mem := m, disk := applyAll d ((step m o).2.2.take j) } ∨
-        Consistent { mem := (step m o).2.1, disk := applyAll d ((step m o).2.2.take j) } := by
-      rcases step_cases m o hs with ⟨h1, h2⟩ | ⟨r, h1, h2⟩ | ⟨s, h1, h2⟩
-      · left; simp only [h1, List.take_nil, applyAll, List.foldl_nil]; exact hc
-      · rcases take_two (Op.nop lblRuleMkdir) (Op.write Path.ruleCat [Doc.rules r]) j with h | h | h
-        · left; simp only [h1, saveRules, h, applyAll, List.foldl_nil]; exact hc
-        · left; simp only [h1, saveRules, h, applyAll, List.foldl_cons, List.foldl_nil, apply]; exact hc
-        · right; simp only [h1, h2, saveRules, h]; exact consistent_saveRules hc r
-      · rcases take_two (Op.nop lblSchemaMkdir) (Op.write Path.schemaCat [Doc.schemas s]) j with h | h | h
-        · left; simp only [h1, saveSchemas, h, applyAll, List.foldl_nil]; exact hc
-        · left; simp only [h1, saveSchemas, h, applyAll, List.foldl_cons, List.foldl_nil, apply]; exact hc
-        · right; simp only [h1, h2, saveSchemas, h]; exact consistent_saveSchemas hc s
-    have himg : runItem { mem := m, disk := d } (.opCrash o j none) =
-        rebootFrom m (step m o).2.1 (crash (applyAll d ((step m o).2.2.take j)) noCut) := rfl
+      exact ⟨rulesOk_crash hS.rules _, schemasOk_crash hS.schemas _⟩
+  | opCrash o j cuts =>
+    obtain ⟨r, s, hr1, hs1, hR, hSc⟩ := crashpoint_ok m d o j hS
+    have himg : runItem { mem := m, disk := d } (.opCrash o j cuts) =
+        rebootFrom m (step m o).2.1 (crash (applyAll d ((step m o).2.2.take j)) (cutsOf cuts)) := rfl
+    have hrec := recover_of_ok hR hSc (cutsOf cuts)
     rw [himg]
-    rcases hcase with h | h
-    · have hr : recover (crash (applyAll d ((step m o).2.2.take j)) noCut) = some m := h.recover_eq
-      refine ⟨?_, ?_⟩
-      · simp [rebootFrom, hr, outOk]
-      · intro st' hst
-        simp only [rebootFrom, hr, Option.map_some, Option.some.injEq] at hst
-        subst hst
-        exact consistent_crash h
-    · have hr : recover (crash (applyAll d ((step m o).2.2.take j)) noCut) = some (step m o).2.1 := h.recover_eq
-      refine ⟨?_, ?_⟩
-      · simp [rebootFrom, hr, outOk]
-      · intro st' hst
-        simp only [rebootFrom, hr, Option.map_some, Option.some.injEq] at hst
-        subst hst
-        exact consistent_crash h
+    refine ⟨?_, ?_⟩
+    · simp only [rebootFrom, hrec, outOk]
+      exact ⟨_, rfl, hr1, hs1⟩
+    · intro st' hst
+      simp only [rebootFrom, hrec, Option.map_some, Option.some.injEq] at hst
+      subst hst
+      exact ⟨rulesOk_crash hR _, schemasOk_crash hSc _⟩
 
 end Cat
 end ILV
